@@ -105,6 +105,10 @@ def handle : Handler := fun j => do
   match op with
   | "all" =>
     let db ← dbOfJson (← j.getObjVal? "graph")
+    -- `"implicit": name`: the default (implicit) product is switched on
+    let db := match j.getObjVal? "implicit" with
+      | .ok (Json.str n) => db.withImplicit (Str.ofString n)
+      | _ => db
     let fuel := db.fuel
     let roots ← (← jarr j "roots").mapM pairOfJson
     let modes ← (← jarr j "modes").mapM fun m => do
